@@ -15,7 +15,8 @@ RULE = ("for each input (data, hyper-parameters, generator seed): a reference di
         "configuration orders; non-trivial = a configuration whose observed completion order was not the submission order; distinct by "
         "(input, configuration, observed permutation)")
 ASSUMPTIONS = ["completion order observed through apply_async callbacks in the parent's result-handler thread",
-               "all interpreters run with OMP/OPENBLAS threads = 1 so BLAS reductions are comparable"]
+               "interpreters run with OMP/OPENBLAS threads = 1 except the 'wide' shards, which leave the library multi-threaded and compare configurations inside one interpreter",
+               "environment dimensions (start method, hash seed, warning filters, jumping clocks, forked child, mixture out of EM steps) are applied to whole configurations; the reference run has none of them"]
 SHARD_TIMEOUT = {"quick": 300, "thorough": 3400}
 
 
